@@ -153,7 +153,7 @@ def explore(cd: Compiled, alphabet, cap):
                 ns = sim.snapshot()
                 rk = m.state_key()
                 if ns in refstate:
-                    if refstate[ns] != rk:
+                    if not _same_defined(refstate[ns], rk):
                         return "mismatch", {"path": [alphabet[i] for i in path] + [sym],
                                             "bad": [("<pairing>", str(refstate[ns])[:120], str(rk)[:120])],
                                             "states": states, "transitions": transitions}
@@ -168,6 +168,16 @@ def explore(cd: Compiled, alphabet, cap):
                 nxt.append(np_)
         frontier = nxt
     return "ok", {"states": states, "transitions": transitions, "closed": complete}
+
+
+def _same_defined(a, b):
+    """reference state keys agree wherever both define a value (None = undefined = wildcard)"""
+    for ga, gb in zip(a, b):
+        da, db = dict(ga), dict(gb)
+        for k in da.keys() & db.keys():
+            if da[k] is not None and db[k] is not None and da[k] != db[k]:
+                return False
+    return True
 
 
 # ----------------------------------------------------------------------------- minimisation
